@@ -45,7 +45,23 @@ impl Quil for Delay {
             write!(writer, " {}", QuotedString(frame_name))?;
         }
         write!(writer, " ",)?;
-        self.duration.write(writer, fall_back_to_debug)
+        // Without a frame name in between, the qubits and a duration that starts like a qubit (an
+        // integer, an identifier or a variable) run together: `DELAY 0 2 - 1`, `DELAY 0 sin(1)`.
+        // Group a compound duration so that it parses back as the duration.
+        let group_duration = self.frame_names.is_empty()
+            && match &self.duration {
+                Expression::Infix(_) | Expression::FunctionCall(_) => true,
+                Expression::Number(value) => value.im != 0.0,
+                _ => false,
+            };
+        if group_duration {
+            write!(writer, "(")?;
+            self.duration.write(writer, fall_back_to_debug)?;
+            write!(writer, ")")?;
+            Ok(())
+        } else {
+            self.duration.write(writer, fall_back_to_debug)
+        }
     }
 }
 
